@@ -749,6 +749,15 @@ def evaluate_smt_formula(
             return fallback(None)
 
     def fallback(_) -> Maybe[ThreeValuedTruth]:
+        if any(
+            assignments[var][1].is_open()
+            for var in formula.free_variables()
+            if var in assignments
+        ):
+            # The string of an open tree contains the names of its open leaves,
+            # which are placeholders and not part of any completion.
+            return Some(ThreeValuedTruth.unknown())
+
         return Some(
             is_valid(
                 z3.substitute(
